@@ -177,7 +177,11 @@ def step(w, ri, tg):
         renum(js)
         w.add_tree(metapype_io.from_json(json.dumps(js)))
     elif kind == "xml":
-        xml = rng.choice(["<a><b>t</b><!--c--><c x='1'/></a>", "<eml:eml xmlns:eml='u'><dataset><title>T</title></dataset></eml:eml>", "<p/>",
+        # documents carrying XML id attributes: an id attribute is data of the document, not the identity of a node, and the
+        # same document may be imported any number of times into one program
+        xml = rng.choice(["<dataset id='d1'><creator id='c1'><organizationName>o</organizationName></creator><contact><references>c1</references></contact></dataset>",
+                          "<a id='x1'><b id='x2'/><b id='x1'/></a>",
+                          "<a><b>t</b><!--c--><c x='1'/></a>", "<eml:eml xmlns:eml='u'><dataset><title>T</title></dataset></eml:eml>", "<p/>",
                           "<abstract><para>Some <emphasis>bold <subscript>x</subscript></emphasis> tail</para></abstract>"])
         w.add_tree(metapype_io.from_xml(xml))
     elif kind == "attach" and len(w.roots) >= 2:
@@ -261,6 +265,17 @@ def step(w, ri, tg):
             w.roots.remove(n)
             w.forget_tree(n, children=False)
             Node.delete_node_instance(n.id, children=False)
+        else:
+            # only the root is discarded, as the documented signature (id, children) says when the flag is given by position;
+            # its children stay registered and are held as trees of their own from now on
+            kids = list(n.children)
+            w.roots.remove(n)
+            w.forget_tree(n, children=False)
+            Node.delete_node_instance(n.id, False)
+            for k in kids:
+                n.remove_child(k)
+                k.parent = None
+                w.roots.append(k)
     return kind
 
 
